@@ -38,6 +38,10 @@ fn main() {
             }
         }
     }
+    if args[1] == "sizes" {
+        plans::sizes();
+        return;
+    }
     if args[1] == "show" {
         let path = args.get(2).unwrap_or_else(|| usage());
         plans::show(path);
